@@ -297,3 +297,34 @@ def run(ctx: Ctx):
     ecases = [scen.gen(ctx.seed * 100000 + 5800 + k, layout="sparse", pvars=True, numrec=3, period=1, nsteps=[8, 7, 5][k % 3], kills=bool(k % 2),
                        continuous=False, rev=bool(k % 4 == 3), speed=0.25) for k in range(ne)]
     scen.e2e_stream(ctx, "whole-run-split-pvars", ecases, "Ladim.C06.pvars_complete / Ladim.C05.values_follow_* (particle variables at index pid in every file)")
+
+    # ---- a name declared both as an instance variable and as a particle variable: the state refuses the declaration;
+    # if it ever accepts one, the invariants must hold for it like for any other
+    from ladim.state import State
+    import numpy as _np
+    for tag, iv, pv in (("X0 twice", dict(age=float, X0=float), dict(X0=float)), ("Z as particle variable", dict(age=float), dict(Z=float))):
+        ctx.case("overlapping-declaration", [tag], sample=dict(instance_variables=list(iv), particle_variables=list(pv)), nontrivial=True)
+        try:
+            st = State(instance_variables=iv, particle_variables=pv, default_values=dict(age=0.0))
+        except TypeError:
+            ctx.count("overlap:refused"); continue
+        except Exception as e:  # noqa: BLE001
+            ctx.violation("tie-broken", "overlapping-declaration", dict(case=tag), dict(implementation=type(e).__name__, expected="TypeError")); continue
+        bad = []
+        try:
+            name = list(pv)[0]
+            st.append(X=_np.array([1.0, 2.0, 3.0]), Y=1.0, Z=_np.array([5.0, 6.0, 7.0]), **({name: _np.array([10.0, 20.0, 30.0])} if name != "Z" else {}))
+            st.alive[1] = False
+            st.compactify()
+            for v in st.particle_variables:
+                if len(st.variables[v]) != st.npid:
+                    bad.append(f"particle variable {v} has {len(st.variables[v])} values, {st.npid} pids have been handed out")
+            for v in st.instance_variables:
+                if len(st.variables[v]) != len(st.pid):
+                    bad.append(f"instance array {v} has length {len(st.variables[v])} != {len(st.pid)}")
+        except Exception as e:  # noqa: BLE001
+            bad.append(f"raised {type(e).__name__} in append/compactify")
+        if bad:
+            ctx.violation("failing-input", "overlapping-declaration", dict(case=tag, instance_variables=list(iv), particle_variables=list(pv)),
+                          dict(broken=bad[:3], note="the declaration was accepted and the arrays are no longer aligned with the identifiers",
+                               theorem="Ladim.C05.wf_preserved"), tags=dict(first="overlap"))
